@@ -1,12 +1,13 @@
 #!/bin/bash
 # usage: tools/matrix.sh [out-file]   (runs every mutants/*.patch and seeded/*/patch.diff against the
 # checks named in tools/matrix.tsv and records which check reports a violation)
-out=${1:-/verif/seeded/MATRIX.txt}
+VH=${VERIF_HOME:-$(cd "$(dirname "$0")/.." && pwd)}   # the /verif tree these tools belong to (a snapshot works too)
+out=${1:-$VH/seeded/MATRIX.txt}
 : > $out.tmp
 while IFS=$'\t' read -r patch checks; do
   [ -z "$patch" ] && continue
   case "$patch" in \#*) continue;; esac
-  res=$(TMO=900 /verif/tools/mutant.sh /verif/$patch $checks 2>&1 | grep '^\[' | sed 's/ violation line(s)//' | tr '\n' ' ')
+  res=$(TMO=900 $VH/tools/mutant.sh $VH/$patch $checks 2>&1 | grep '^\[' | sed 's/ violation line(s)//' | tr '\n' ' ')
   echo -e "$patch\t$res" | tee -a $out.tmp
-done < /verif/tools/matrix.tsv
+done < $VH/tools/matrix.tsv
 mv $out.tmp $out
